@@ -22,6 +22,7 @@ import (
 	"fmt"
 	"os"
 	"os/exec"
+	"path/filepath"
 	"runtime"
 	"runtime/pprof"
 	"sort"
@@ -75,7 +76,35 @@ var configs = []*Config{
 	{Name: "watchdog-full", Tier: "thorough", Events: []string{evLease1, evLease2, evSubA, evSubA2, evDClosed, evShutdown}, Watchdog: true, HostAsync: true, FetchErrs: 1, ThoroughBudgets: "0,0/4"},
 }
 
+// The version-protocol family of C10 (checks/C20 c10version): lease won, the deployment query answered by
+// the environment, two DISTINCT updates (update -> vB, update2 -> vC; either may come first, and the one
+// fired first is the older chain state), and 1-2 clients submitting the manifests that hash to the
+// initial version (A), to vB (B) and to vC (C). Every order and prefix; oracle: checkVersion.
+var c10vConfigs = []*Config{
+	{Name: "v-subA", Tier: "quick", Mode: "c10v", Events: []string{evLease1, evUpdate, evUpdate2, evSubA}, Budgets: bQ + "|2,2", ThoroughBudgets: bQ + "|2,2|3,3/2"},
+	{Name: "v-subB", Tier: "quick", Mode: "c10v", Events: []string{evLease1, evUpdate, evUpdate2, evSubB}, Budgets: bQ + "|2,2", ThoroughBudgets: bQ + "|2,2|3,3/2"},
+	{Name: "v-subC", Tier: "quick", Mode: "c10v", Events: []string{evLease1, evUpdate, evUpdate2, evSubC}, Budgets: bQ + "|2,2", ThoroughBudgets: bQ + "|2,2|3,3/2"},
+	{Name: "v-subAB", Tier: "quick", Mode: "c10v", Events: []string{evLease1, evUpdate, evUpdate2, evSubA, evSubB}, Budgets: "0,0;1,0;0,1|1,1/2", ThoroughBudgets: "0,0;1,0;0,1|1,1/2|2,1/4|1,2/4"},
+	{Name: "v-subBC", Tier: "quick", Mode: "c10v", Events: []string{evLease1, evUpdate, evUpdate2, evSubB, evSubC}, Budgets: "0,0;1,0;0,1|1,1/2", ThoroughBudgets: "0,0;1,0;0,1|1,1/2|2,1/4|1,2/4"},
+	{Name: "v-subAC", Tier: "thorough", Mode: "c10v", Events: []string{evLease1, evUpdate, evUpdate2, evSubA, evSubC}, ThoroughBudgets: "0,0;1,0;0,1|1,1/2|2,1/4"},
+	{Name: "v-1update-subAB", Tier: "quick", Mode: "c10v", Events: []string{evLease1, evUpdate, evSubA, evSubB}, Budgets: bQ, ThoroughBudgets: bQ + "|2,2|3,3/4"},
+	{Name: "v-nolease-subBC", Tier: "thorough", Mode: "c10v", Events: []string{evUpdate, evUpdate2, evSubB, evSubC, evLease1}, ThoroughBudgets: "0,0;1,0;0,1|1,1/2"},
+	{Name: "v-fetcherr-subBC", Tier: "thorough", Mode: "c10v", Events: []string{evLease1, evUpdate, evUpdate2, evSubB, evSubC}, FetchErrs: 1, ThoroughBudgets: "0,0;1,0|0,1/2"},
+}
+
+func familyConfigs(family string) []*Config {
+	if family == "c10v" {
+		return c10vConfigs
+	}
+	return configs
+}
+
 func findConfig(name string) *Config {
+	for _, c := range c10vConfigs {
+		if c.Name == name {
+			return c
+		}
+	}
 	for _, c := range configs {
 		if c.Name == name {
 			return c
@@ -195,6 +224,7 @@ func main() {
 		deadline  = flag.Duration("deadline", 0, "internal deadline for the exploration (0: tier default)")
 		noEvid    = flag.Bool("no-evidence", false, "do not write evidence / replay files (mutant runs)")
 		selftestN = flag.Int("selftest", 2, "determinism self-test: replays of one recorded schedule")
+		family    = flag.String("family", "c20", "c20: the configurations and oracle of C20; c10v: the version-protocol part of C10 (writes build/c10-version.json, no evidence file)")
 		failFast  = flag.Bool("fail-fast", false, "stop the remaining workers as soon as one configuration reports a violation")
 		budgetStr = flag.String("budgets", "", "override the budgets of the configuration(s), e.g. \"0,0;1,0\" (-1 = unbounded)")
 		maxViol   = flag.Int("max-violations", 1, "worker mode: violations to collect before stopping")
@@ -215,7 +245,7 @@ func main() {
 	}
 	switch {
 	case *list:
-		for _, c := range configs {
+		for _, c := range familyConfigs(*family) {
 			fmt.Printf("%-18s %-8s %v quick=%q thorough=%q\n", c.Name, c.Tier, c.Events, c.Budgets, c.ThoroughBudgets)
 		}
 	case *replay != "":
@@ -225,7 +255,7 @@ func main() {
 		pprof.StopCPUProfile()
 		os.Exit(rc)
 	default:
-		os.Exit(doParent(*tier, *workers, *config, *budgetStr, *deadline, *noEvid, *selftestN, *failFast))
+		os.Exit(doParent(*family, *tier, *workers, *config, *budgetStr, *deadline, *noEvid, *selftestN, *failFast))
 	}
 }
 
@@ -392,8 +422,8 @@ func doReplay(path string) int {
 }
 
 // selfTest replays one recorded schedule n times and compares the observation logs and traces.
-func selfTest(n int) error {
-	cfg := findConfig("2sub-shutdown")
+func selfTest(n int, cfgName string) error {
+	cfg := findConfig(cfgName)
 	rec := vs.Explore(factory(cfg), vs.Options{Budgets: []vs.Budget{{P: 1, E: 0}}, MaxSteps: 50000, Samples: 4, MaxViolations: 1 << 30, Deadline: time.Now().Add(8 * time.Second)})
 	if len(rec.Errors) > 0 {
 		return fmt.Errorf("self-test exploration failed: %v", rec.Errors)
@@ -414,7 +444,7 @@ func selfTest(n int) error {
 	return nil
 }
 
-func doParent(tier string, nworkers int, only, budgetStr string, d time.Duration, noEvid bool, selftestN int, failFast bool) int {
+func doParent(family, tier string, nworkers int, only, budgetStr string, d time.Duration, noEvid bool, selftestN int, failFast bool) int {
 	ctx, cancel := context.WithCancel(context.Background())
 	defer cancel()
 	start := time.Now()
@@ -433,13 +463,23 @@ func doParent(tier string, nworkers int, only, budgetStr string, d time.Duration
 		if tier == "thorough" {
 			d = 25 * time.Minute
 		}
+		if family == "c10v" {
+			d = 35 * time.Second
+			if tier == "thorough" {
+				d = 10 * time.Minute
+			}
+		}
 	}
 	findings, err := evlib.LoadFindings()
 	if err != nil {
 		fmt.Fprintln(os.Stderr, "c20: known_findings.json:", err)
 		return 2
 	}
-	if err := selfTest(selftestN); err != nil {
+	stCfg := "2sub-shutdown"
+	if family == "c10v" {
+		stCfg = "v-subB"
+	}
+	if err := selfTest(selftestN, stCfg); err != nil {
 		fmt.Fprintln(os.Stderr, "c20: determinism self-test FAILED:", err)
 		return 2
 	}
@@ -452,7 +492,7 @@ func doParent(tier string, nworkers int, only, budgetStr string, d time.Duration
 	var groups []string
 	var shardOf [][2]int
 	ncfg := 0
-	for _, c := range configs {
+	for _, c := range familyConfigs(family) {
 		if only != "" && c.Name != only {
 			continue
 		}
@@ -593,6 +633,8 @@ func doParent(tier string, nworkers int, only, budgetStr string, d time.Duration
 		reported   = map[string]bool{}
 		shardsDone = map[string]int{}
 		sampled    = map[string]bool{}
+		c10viol    = []map[string]interface{}{}
+		ndup       = 0 // c10v: further violating executions with a (signature, configuration) already listed
 	)
 	fmt.Printf("%-18s %-22s %10s %10s %10s %12s %9s %8s %-5s %s\n", "configuration", "budgets", "executions", "pruned", "states", "transitions", "outcomes", "wall_s", "exh.", "budgets completed")
 	for i, wo := range results {
@@ -671,6 +713,37 @@ func doParent(tier string, nworkers int, only, budgetStr string, d time.Duration
 				continue
 			}
 			sigs := signatures(v.Messages)
+			if family == "c10v" {
+				// part of C10: no evidence file, no VIOLATION line (checks/C10 prints it), known findings are C10's business
+				if reported[strings.Join(sigs, "+")+"@"+cfg.Name] {
+					ndup++
+					continue
+				}
+				nviol++
+				rp := Replay{Property: "C10", Config: cfg.Name, Choices: v.Choices, Ns: v.Ns, Status: v.Status, Signatures: sigs, Messages: v.Messages, Obs: v.Obs, Schedule: first.Trace,
+					How: "/verif/checks/C20 replay <this file>"}
+				path := ""
+				if !noEvid {
+					path = filepath.Join(evlib.Root(), "replays", fmt.Sprintf("C10-v%d.json", nviol))
+					raw, _ := json.MarshalIndent(rp, "", " ")
+					if err := os.MkdirAll(filepath.Dir(path), 0o755); err == nil {
+						err = os.WriteFile(path, append(raw, '\n'), 0o644)
+						if err != nil {
+							fmt.Fprintln(os.Stderr, "c20:", err)
+							machinery = true
+						}
+					}
+				}
+				msg := strings.Join(v.Messages, " | ")
+				reported[strings.Join(sigs, "+")+"@"+cfg.Name] = true
+				c10viol = append(c10viol, map[string]interface{}{"signature": strings.Join(sigs, "+"), "message": msg, "replay": path, "config": cfg.Name, "events": cfg.Events, "choices": v.Choices, "observation": v.Obs})
+				fmt.Printf("version-protocol violation: signature=%s config=%s events=%v replay=%s\n", strings.Join(sigs, "+"), cfg.Name, cfg.Events, path)
+				for _, m := range v.Messages {
+					fmt.Printf("  %s\n", m)
+				}
+				fmt.Printf("  observation: %s\n", v.Obs)
+				continue
+			}
 			allKnown := len(sigs) > 0
 			for _, s := range sigs {
 				if _, ok := findings.Known("C20", s); !ok {
@@ -715,6 +788,35 @@ func doParent(tier string, nworkers int, only, budgetStr string, d time.Duration
 	}
 	if machinery {
 		return 2
+	}
+	if family == "c10v" {
+		var names []string
+		for _, c := range c10vConfigs {
+			if _, ok := budgetsOK[c.Name]; ok {
+				names = append(names, c.Name)
+			}
+		}
+		out := map[string]interface{}{
+			"part": "version-protocol", "tier": tier, "executions": tot.Executions, "states": tot.States, "transitions": tot.Transitions,
+			"distinct_outcomes": tot.DistinctOutcomes, "exhaustive": exhaust, "configurations": names, "budgets": budgetsOK, "per_configuration": perConfig,
+			"samples": samples, "violations": c10viol, "further_violating_executions_not_listed": ndup, "statistics_not_verdicts": info, "wall_s": wall,
+			"rule": "real provider/manifest service + manager (instrumented, gosched): every order and prefix of {lease won, update->vB, update2->vC, Submit of the manifests hashing to the initial version / vB / vC}, the deployment query answered by the environment at every moment, every schedule within the budgets; " +
+				"an acceptance (nil reply) is legitimate iff the manifest's hash is a version the manager goroutine knew as current (last update event it had consumed, or the query's answer when that is newer or no update was consumed) at some moment between taking the request (with the query answered) and replying; rejections are never demanded",
+		}
+		raw, _ := json.MarshalIndent(out, "", " ")
+		tmp := filepath.Join(evlib.Root(), "build", ".c10-version.json.tmp")
+		if err := os.WriteFile(tmp, append(raw, '\n'), 0o644); err != nil {
+			fmt.Fprintln(os.Stderr, "c20:", err)
+			return 2
+		}
+		if err := os.Rename(tmp, filepath.Join(evlib.Root(), "build", "c10-version.json")); err != nil {
+			fmt.Fprintln(os.Stderr, "c20:", err)
+			return 2
+		}
+		if nviol > 0 {
+			return 1
+		}
+		return 0
 	}
 	if !noEvid {
 		traces := tot.Executions
